@@ -58,7 +58,7 @@ def run(facts, rep, tier):
     for arm in em["arms"]:
         names = [t.split("::")[-1] for t in pat_top_variants(arm["pat"])]
         s = src(arm["body"])
-        empty = s.replace(" ", "") in ("Vec::new()", "vec!()", "{Vec::new()}") or s == "Vec::new()"
+        empty = re.fullmatch(r"\{?\s*(Vec(<\w+>)?::new\(\)|vec!\(\)|Default>?::default\(\))\s*\}?", s.strip()) is not None
         for nme in names:
             enumerated[nme] = (not empty, arm)
     for vname, tys in sorted(carriers.items()):
@@ -111,7 +111,7 @@ def run(facts, rep, tier):
             for arm in vm[0]["arms"]:
                 for t in pat_top_variants(arm["pat"]):
                     s = src(arm["body"])
-                    got[t.split("::")[-1]] = s.replace(" ", "") not in ("Vec::new()",)
+                    got[t.split("::")[-1]] = re.fullmatch(r"\{?\s*(Vec(<\w+>)?::new\(\)|vec!\(\)|Default>?::default\(\))\s*\}?", s.strip()) is None
             for v in vd["variants"]:
                 carries = any("TypeId" in f["ty"] or "StructProperty" in f["ty"] for f in v["fields"])
                 if carries:
